@@ -462,6 +462,11 @@ def get_paragraph_data(text, remove_pgp_signature=False):
     if not items or mls.defects:
         return {'unknown': text}
 
+    if mls.get_unixfrom() is not None:
+        # a first line starting with "From " is taken as a mailbox envelope
+        # line by the email parser and would be silently dropped
+        return {'unknown': text}
+
     # in a header-only email we should not have a payload. Yet when this happens
     # we should no ignore it either, so let's treat this as "unknown"
     payload = mls.get_payload()
